@@ -15,7 +15,7 @@ source" are theorems about the one-memory machine (`c16_noninterference`,
 `c16_clone_independent`), where sharing would be visible; `c16_heap_refines` transports the
 per-operation theorems to it.
 -/
-import Golib.Proof.C16HeapSim
+import Golib.Proof.C16History
 
 namespace Golib.C16
 
@@ -131,6 +131,23 @@ theorem c16_dsz_same (d : DBits) (n : Nat) :
   ⟨DBits.add_eq d n, DBits.remove_eq d n, DBits.contains_eq d n, DBits.grow_eq d n,
    DBits.len_eq d, DBits.cap_eq d⟩
 
+/-- **Whole histories against a mathematical set.**  Start from any `Bits` value whose cache
+is right (e.g. the zero value) and apply ANY sequence of `Add`/`Remove`/`Grow`/`Diff`/
+`Intersect`/`Merge` with any arguments and any other operands (of any word length): no panic,
+every `Add`/`Remove` answers what the set `S ↦ S ∪ {n}` / `S ∖ {n}` answers ("membership
+changed"), and afterwards `Contains` is the set's membership predicate, `Len` is the number of
+members, and `Iter`, `Range` and `All` enumerate exactly the members in ascending order. -/
+theorem c16_history (ops : List SOp) (b : Bits) (hi : b.Inv) :
+    ∃ b', runAll b ops = some (b', (specAll (mem b.bm.set) ops).2) ∧
+      (∀ m, b'.bm.contains m = some ((specAll (mem b.bm.set) ops).1 m)) ∧
+      (∀ m, m ∈ members b'.bm.set ↔ (specAll (mem b.bm.set) ops).1 m = true) ∧
+      (members b'.bm.set).Pairwise (· < ·) ∧
+      b'.len = ((members b'.bm.set).length : Int) ∧ b'.bm.len = ((members b'.bm.set).length : Int) ∧
+      b'.bm.iterAll = members b'.bm.set ∧ b'.bm.range (fun _ => true) = members b'.bm.set := by
+  obtain ⟨b', hr, hi', hm⟩ := runAll_spec ops b hi
+  refine ⟨b', hr, fun m => by rw [contains_spec, hm], fun m => by rw [mem_members, hm],
+    members_sorted _, hi', len_eq_card _, iterAll_eq_members _, (c16_range_eq b'.bm (fun _ => true)).2⟩
+
 /-! ### the one-memory machine -/
 
 /-- **The one-memory machine refines the by-value machine.**  For every growth function of
@@ -219,6 +236,10 @@ example : (⟨4, ⟨exWords⟩⟩ : Bits).Inv := by
 example : mem (mergeWords [5#64] exWords) 128 = true ∧ mem (diffWords exWords [0#64, 1#64]) 64 = false ∧
     mem (intersectWords exWords [1#64 <<< 63]) 65 = false := by decide
 example : Bits.Reachable (Bits.merge Bits.empty ⟨exWords⟩) := .step _ _ .init (.merge _ _)
+/-- a history over word boundaries with a bulk operation in the middle -/
+example : (runAll Bits.empty [.add 63, .add 64, .add 63, .merge ⟨exWords⟩, .remove 64, .remove 7,
+    .intersect ⟨[~~~ 0#64]⟩]).map (fun r => (r.2, members r.1.bm.set, r.1.len)) =
+    some ([some true, some true, some false, none, some true, some false, none], [63], 1) := by decide
 /-- a run of the one-memory machine in which register 0 is re-allocated (Merge appends beyond
 capacity), register 2 becomes a clone, and `x.Diff(x)` runs on a shared header copy -/
 example : (hrunList goGrow8 (HSt.init [.bits, .bits, .bitmap])
